@@ -71,18 +71,18 @@ type wAtom struct {
 	jt    string // str | num | bool
 	canon string
 	// protobuf-side value
-	i64   int64
-	u64   uint64
-	f64   float64
-	str   string
-	by    []byte
-	sec   int64
-	nanos int32
+	i64     int64
+	u64     uint64
+	f64     float64
+	str     string
+	by      []byte
+	sec     int64
+	nanos   int32
 	y, m, d int32
-	val   bool // has a protobuf value (false: lexeme-only fault atom)
-	good  bool // representable in the documented wire format (C01/C03 space); false: fault / C08-only atom
-	zero  bool // proto3 zero value (no presence without `optional`)
-	alt   map[string]string // form -> text for forms that cannot be derived mechanically (timestamps)
+	val     bool              // has a protobuf value (false: lexeme-only fault atom)
+	good    bool              // representable in the documented wire format (C01/C03 space); false: fault / C08-only atom
+	zero    bool              // proto3 zero value (no presence without `optional`)
+	alt     map[string]string // form -> text for forms that cannot be derived mechanically (timestamps)
 }
 
 var wireAtoms = map[string]map[string]*wAtom{}
@@ -96,7 +96,9 @@ func wxUa(v uint64, good bool) *wAtom {
 func wxFa(v float64, canon string, good bool) *wAtom {
 	return &wAtom{jt: "num", canon: canon, f64: v, good: good, zero: v == 0 && !math.Signbit(v), val: true}
 }
-func wxSa(v string) *wAtom { return &wAtom{jt: "str", canon: v, str: v, good: true, zero: v == "", val: true} }
+func wxSa(v string) *wAtom {
+	return &wAtom{jt: "str", canon: v, str: v, good: true, zero: v == "", val: true}
+}
 func wxLongBytes(n int) []byte {
 	b := make([]byte, n)
 	for i := range b {
@@ -164,12 +166,12 @@ func init() {
 		"overpad": wxJunk("str", "QUJD="), "overpad2": wxJunk("str", "QUI=="), "overpadurl": wxJunk("str", "-_A=="), "onlypad": wxJunk("str", "===="),
 	}
 	wireAtoms["timestamp"] = map[string]*wAtom{
-		"epoch": wxTa(0, 0, "1970-01-01T00:00:00Z", map[string]string{"plus": "1970-01-01T05:30:00+05:30", "minus": "1969-12-31T16:00:00-08:00"}),
-		"nanos": wxTa(1709210096, 123456789, "2024-02-29T12:34:56.123456789Z", map[string]string{"plus": "2024-02-29T18:04:56.123456789+05:30", "minus": "2024-02-29T04:34:56.123456789-08:00"}),
+		"epoch":   wxTa(0, 0, "1970-01-01T00:00:00Z", map[string]string{"plus": "1970-01-01T05:30:00+05:30", "minus": "1969-12-31T16:00:00-08:00"}),
+		"nanos":   wxTa(1709210096, 123456789, "2024-02-29T12:34:56.123456789Z", map[string]string{"plus": "2024-02-29T18:04:56.123456789+05:30", "minus": "2024-02-29T04:34:56.123456789-08:00"}),
 		"pre1970": wxTa(-1, 500000000, "1969-12-31T23:59:59.5Z", map[string]string{"plus": "1970-01-01T05:29:59.5+05:30", "minus": "1969-12-31T15:59:59.5-08:00"}),
-		"y0001": wxTa(-62135596800, 0, "0001-01-01T00:00:00Z", map[string]string{"plus": "0001-01-01T05:30:00+05:30", "minus": "0001-01-01T00:00:00Z"}),
-		"y9999": wxTa(253402300799, 0, "9999-12-31T23:59:59Z", map[string]string{"plus": "9999-12-31T23:59:59Z", "minus": "9999-12-31T15:59:59-08:00"}),
-		"bad": wxJunk("str", "yesterday"), "dateonly": wxJunk("str", "2024-02-29"),
+		"y0001":   wxTa(-62135596800, 0, "0001-01-01T00:00:00Z", map[string]string{"plus": "0001-01-01T05:30:00+05:30", "minus": "0001-01-01T00:00:00Z"}),
+		"y9999":   wxTa(253402300799, 0, "9999-12-31T23:59:59Z", map[string]string{"plus": "9999-12-31T23:59:59Z", "minus": "9999-12-31T15:59:59-08:00"}),
+		"bad":     wxJunk("str", "yesterday"), "dateonly": wxJunk("str", "2024-02-29"),
 	}
 	wireAtoms["date"] = map[string]*wAtom{
 		"d0001": wxDa(1, 1, 1, "0001-01-01", true), "d0999": wxDa(999, 12, 31, "0999-12-31", true), "leap": wxDa(2024, 2, 29, "2024-02-29", true), "leap400": wxDa(2000, 2, 29, "2000-02-29", true), "d9999": wxDa(9999, 12, 31, "9999-12-31", true),
